@@ -451,7 +451,7 @@ def table_job(arg):
         else:
             for a, b, lab in zip(gt, toks, labels):
                 if a != b:
-                    bad.append((lab, a, b))
+                    bad.append((lab or ("shape", 0), a, b))
         pl = [(c[1], c[2]) for c in prefix]
         ml = (m[1], m[2]) if m else None
         for lab, a, b in bad[:8]:
@@ -1502,6 +1502,14 @@ def main(tier, replay=None):
         jobs.append((20000, ("hashcyc", i)))
     jobs.sort(key=lambda j: -j[0])
     work = [j for _, j in jobs]
+    parts = os.environ.get("C15_PARTS")          # debugging aid: "a" or "b" runs one half only (evidence then says so)
+    if parts == "a":
+        work = [w for w in work if w[0] != "table"]
+    elif parts == "b":
+        work = [w for w in work if w[0] == "table"]
+    if parts:
+        chk.exhaustive = False
+        chk.cov["parts_selected"] = parts
     import random
     if chk.seed:
         random.Random(chk.seed).shuffle(work)
@@ -1576,7 +1584,7 @@ def main(tier, replay=None):
     # ---------------- (a) analysis
     def agg_a(desc, what, replay):
         key = (desc["op"], desc.get("kind"), desc.get("kind_b"), desc.get("got"), desc.get("want"), desc.get("ascii"))
-        w = len(what)
+        w = len(what) + (0 if (desc.get("route_a"), desc.get("route_b")) == ("literal", "detour-2^200") else 1000)
         g = agg.add(key, desc, what, replay, weight=w)
         if "route_a" in desc:
             g["extra"].setdefault("routes", set()).add((desc.get("route_a"), desc.get("route_b")))
